@@ -45,6 +45,17 @@ def check_case(ctx, case):
         for k in ('width', 'height'):
             if abs(F(b.backdrop[0].attrs[k]) / F(sc) - F(a.backdrop[0].attrs[k])) > TOL:
                 return 'backdrop %s not scaled' % k
+    if case.get('reuse'):
+        # the same scale through a CellBuffer that was rendered at another scale before
+        r3 = ctx.conv(s, entry=5, scale=sc, flags=flags, ow=case['reuse'])
+        if not r3.ok:
+            return 'conversion failed: ' + r3.fail_text()
+        if r3.out != r2.out:
+            c = Scene(r3.out, sc=F(sc))
+            u1, u2 = multiset_match(b.els, c.els, F(0))
+            return 'a CellBuffer rendered at scale %s after a render at scale %s differs from a fresh one: fresh only %s; reused only %s' % (
+                sc, case['reuse'], [show_el(e) for e in u1[:3]], [show_el(e) for e in u2[:3]])
+        ctx.tag('reused_buffer_renders')
     ua, ub = multiset_match(a.els, b.els, TOL)
     if ua or ub:
         return 'scale %s changes more than lengths: at scale 1 only %s; at scale %s (divided) only %s' % (
@@ -80,6 +91,8 @@ def run_shard(ctx, shard):
             extra = rng.choice([['.-->', '|'], ['*--.', "   '->"], ['+--', '| a', '+-'], ['o-.', '  )', " -'"], ['/-\\', '\\-/ x'], ['--> b', ' ^', ' |']])
             rows = list(rows) + [''] + extra
         case = {'rows': rows, 'scale': rng.choice(SCALES), 'flags': rng.choice([0, 0, 1, 7])}
+        if rng.random() < 0.4:
+            case['reuse'] = rng.choice([s_ for s_ in SCALES if s_ != case['scale']])
         ctx.run_case(case)
         if i == 0:
             ctx.sample(case)
